@@ -18,7 +18,8 @@ rmdir "$wt"
 git -C /repo worktree add --detach "$wt" HEAD >/dev/null 2>&1 || { echo "worktree add failed"; exit 2; }
 cleanup() { git -C /repo worktree remove --force "$wt" >/dev/null 2>&1; rm -rf "$wt"; }
 trap cleanup EXIT
-cp "$demo" "$wt/zz_seed_demo_test.go"
+if [ -f "$src/zz_seed_demo_test.go" ]; then demo="$src/zz_seed_demo_test.go"; fi
+grep -v "^//go:build ignore" "$demo" > "$wt/zz_seed_demo_test.go"
 cd "$wt"
 res_without=$(go test -vet=off -count=1 -run 'TestSeedDemo' . 2>&1 | tail -3)
 echo "$res_without" | grep -q '^ok' && without=pass || without=fail
@@ -33,7 +34,7 @@ if [ "$without" = pass ] && [ "$with" = fail ] && [ "$suiteok" = pass ]; then
   d=/verif/seeded/$name
   mkdir -p "$d"
   cp "$patch" "$d/patch.diff"
-  cp "$demo" "$d/demo_test.go"
+  grep -v "^//go:build ignore" "$demo" > "$d/demo_test.go.txt"
   [ -f "$src/SEED/NOTES.md" ] && cp "$src/SEED/NOTES.md" "$d/NOTES.md"
   python3 - "$d" "$name" "$prop" "$(git -C /repo rev-parse HEAD)" <<'EOF'
 import json,sys,os
